@@ -36,4 +36,4 @@ def run(ctx):
     system.engine_traces(ctx, t, "client engines")
     ctx.assumptions += system.SYS_ASSUME + ["bounded time is judged as: Run returns within 20 s of the request on an otherwise idle machine"]
     return vlib.finish(ctx, "model_checking",
-                       "one case = one engine life ended by a shutdown request from {Engine.Stop, Stop, OnTick, OnOpen, OnTraffic, OnClose, OnBoot} x {reactor, reuse-port} with idle / active / just-being-accepted connections; every event validated by TrLife.tla (Run returns nil, all opened connections closed before it returns, OnShutdown once, nothing after return, OnBoot shutdown starts nothing); Engine.tla (acceptors, hand-off queues, shutdown sources, engine.stop, ticker) model-checked for safety and termination, and every recorded engine life validated against it (EngineTrace.tla)")
+                       "one case = one engine life ended by a shutdown request from {Engine.Stop, Stop, OnTick, OnOpen, OnTraffic, an OnTraffic caused by Wake, an OnTraffic that closed its own connection (EventLoop.Close) before answering, OnClose, OnBoot} x {reactor, reuse-port} with idle / active / just-being-accepted connections; every event validated by TrLife.tla (Run returns nil, all opened connections closed before it returns, OnShutdown once, nothing after return, OnBoot shutdown starts nothing; the ticker's own rules -- one tick at a time, one goroutine, never before the returned delay -- are reported as non-conformances only); Engine.tla (acceptors, hand-off queues, shutdown sources, engine.stop, ticker) model-checked for safety and termination, and every recorded engine life validated against it (EngineTrace.tla)")
